@@ -14,7 +14,8 @@ RULE = ("function level: parse_reply of /repo vs the Coq function on all strings
         "tree. distinct = (mode, reply class, days?, dirs?, verbose, outcome, #entries class).")
 ASSUMPTIONS = ["stdin is a terminal iff os.isatty(0) says so (the shim answers it from the scenario)"]
 
-REPLIES = ['y\n', 'Y\n', 'yes\n', 'Yes', 'n\n', 'N\n', 'no\n', '\n', '', ' y\n', '\ty\n', 'ý\n', 'ｙ\n', '1\n', 'ok\n', 'Ÿ\n', 'n', 'yn\n', 'ny\n']
+REPLIES = ['y\n', 'Y\n', 'yes\n', 'Yes', 'n\n', 'N\n', 'no\n', '\n', '', ' y\n', '\ty\n', 'ý\n', 'ｙ\n', '1\n', 'ok\n', 'Ÿ\n', 'n', 'yn\n', 'ny\n',
+           '\u1e99\n', '\u1e99es\n', '\u0178es\n', '\u24e8\n']        # characters that only BECOME y/Y under a case mapping are not a yes
 
 
 def gen(rng, n):
